@@ -17,7 +17,7 @@ FUNCTIONS = ["FlodymArray.validate_values", "FlodymArray._check_value_format", "
              "Stock.validate_stock_arrays", "Stock.validate_time_first_dim", "DynamicStockModel.init_lifetime_model", "DimensionSet.no_repeated_dimensions"]
 ASSUMPTIONS = ["direct attribute overwrites and shape-changing apply() callbacks are outside the documented contract (excluded by the property)"]
 OUTSIDE = ["dtype-dependent behaviour (object dtype throughout)", "histories longer than 3 calls (covered by the inductive step over arbitrary values, not by enumeration)"]
-VARIANTS = 'the caller\'s DimensionSet read, edited in place, then used to build an array (dims_edited); stock dimensions whose items coincide only after a cast; one dimension asked for twice; DSM time-not-first; same-letter operands of other lengths; to_stock_type; wrong-shaped ndarrays into zero-dimensional arrays'
+VARIANTS = 'same_names (two dimensions of different lengths sharing a name); may_fail (object / text ndarrays: whatever the library does, a call that raised changed nothing); the caller\'s DimensionSet read, edited in place, then used to build an array (dims_edited); stock dimensions whose items coincide only after a cast; one dimension asked for twice; DSM time-not-first; same-letter operands of other lengths; to_stock_type; wrong-shaped ndarrays into zero-dimensional arrays'
 BOUNDS = {"quick": dict(calls="every catalogue operation, every ill-formed call, every ill-formed stock / lifetime-model construction", histories="every ordered pair (ill-formed call, catalogue operation) on one state (structured third)"),
           "thorough": dict(calls="as quick", histories="all pairs and a structured subset of triples")}
 for _t in BOUNDS.values():
@@ -39,6 +39,12 @@ def configs(tier, seed):
         out.append(dict(h="bad_stock", op=n, key=f"bad_stock/{n}", name=n))
     # the caller's own DimensionSet read (shape, total size, an array or a stock built on it), then edited in place,
     # then used to build an array: the array has the shape of the set as it is now
+    # two dimensions of different lengths that share their NAME (origin / destination region): only letters are unique
+    out.append(dict(h="same_names", op="same_names", key="same_names/o2_d3"))
+    # calls the library may accept or refuse (an ndarray of the right shape holding objects, some of them not numbers):
+    # whatever it does, a call that raised changed nothing
+    for n in MAY_FAIL:
+        out.append(dict(h="may_fail", op=n, key=f"may_fail/{n}", name=n))
     for read in ("shape", "total_size", "size", "array_built", "stock_built", "copy", "nothing"):
         for edit in DIMS_EDITS:
             out.append(dict(h="dims_edited", op=edit, key=f"dims_edited/read={read}/{edit}", read=read, edit=edit))
@@ -54,6 +60,63 @@ def configs(tier, seed):
         for b1, b2, g in trip:
             out.append(dict(h="history", op="hist3", key=f"history/{b1}>{b2}>{g}", seq=[("bad", b1), ("bad", b2), ("good", g)]))
     return out
+
+
+MAY_FAIL = ["set_values_object_array_with_text", "setitem_ellipsis_object_array_with_text", "set_values_object_array_of_numbers", "set_values_text_array"]
+
+
+def _same_names(cfg, w):
+    from flodym import FlodymArray, Dimension, DimensionSet
+
+    t = Dimension(name="Time", letter="t", items=[2000, 2001], dtype=int)
+    o = Dimension(name="Region", letter="o", items=["EU", "US"])
+    d = Dimension(name="Region", letter="d", items=["EU", "US", "CN"])
+    ds = DimensionSet(dim_list=[t, o, d])
+    shape = (2, 2, 3)
+    w.ob("set:shape", tuple(ds.shape) == shape, info=str(tuple(ds.shape)))
+    w.ob("set:sizes_by_letter", (ds.size("t"), ds.size("o"), ds.size("d")) == shape)
+    w.ob("set:lookup_by_letter", ds["o"] is not None and list(ds["o"].items) == ["EU", "US"] and list(ds["d"].items) == ["EU", "US", "CN"])
+    z = FlodymArray(dims=ds)
+    w.ob("declared_array:zeros_have_the_shape_of_the_items", tuple(np.shape(z.values)) == shape, info=str(np.shape(z.values)))
+    V = w.arr("v", shape)
+    try:
+        y = FlodymArray(dims=ds, values=V.copy())
+        w.ob_arr_eq("array_of_item_shape_accepted:values", y.values, V)
+        invariant(w, "array", y)
+        s_ = y.sum_to(("d", "t"))
+        w.ob("sum_to:shape", tuple(np.shape(s_.values)) == (3, 2))
+        for k in range(3):
+            for j in range(2):
+                w.ob_eq(f"sum_to[{k},{j}]", s_.values[k, j], V[j, 0, k] + V[j, 1, k])
+        r = y[{"d": "CN"}]
+        w.ob("read_by_letter:shape", tuple(np.shape(r.values)) == (2, 2))
+        w.ob_arr_eq("read_by_letter:values", r.values, V[:, :, 2])
+    except Exception as ex:
+        w.ob("array_of_item_shape_accepted", False, info=f"{type(ex).__name__}: {str(ex)[:150]}")
+    try:
+        FlodymArray(dims=ds, values=w.arr("wrong", (2, 3, 3)))
+        w.ob("array_of_other_shape_rejected", False, info="accepted")
+    except Exception:
+        w.ob("array_of_other_shape_rejected", True)
+
+
+def _may_fail(cfg, w):
+    E = ops.Env(w)
+    snap = E.snapshot()
+    n = cfg["name"]
+    obj = np.array([[1.5, "n/a"], [2.0, 3.0]], dtype=object)
+    nums = np.array([[1.5, 2], [2.0, 3.0]], dtype=object)
+    call = {"set_values_object_array_with_text": lambda: E.x.set_values(obj), "setitem_ellipsis_object_array_with_text": lambda: E.x.__setitem__(Ellipsis, obj),
+            "set_values_object_array_of_numbers": lambda: E.x.set_values(nums), "set_values_text_array": lambda: E.x.set_values(np.array([["a", "b"], ["c", "d"]]))}[n]
+    try:
+        call()
+    except Exception:
+        w.ob("call_raised", True)
+        E.check_unchanged("after_raise", snap)
+        all_invariants(w, "after_raise", E)
+        return
+    w.ob("call_returned", True)
+    w.ob("after_return:shape", isinstance(E.x.values, np.ndarray) and tuple(E.x.values.shape) == (2, 2))
 
 
 DIMS_EDITS = ["append", "prepend", "insert", "expand_by", "extend", "drop", "replace_longer", "expand_by_then_drop"]
@@ -127,6 +190,9 @@ def invariant(w, tag, a):
         return
     ok = isinstance(a.values, np.ndarray) and tuple(a.values.shape) == tuple(a.dims.shape)
     w.ob(f"{tag}:values_shape_equals_dims_shape", ok, info=f"values {getattr(a.values, 'shape', type(a.values))} dims {a.dims.shape}")
+    # ... and the shape the set reports is the lengths of its dimensions' item lists
+    lens_ = tuple(len(d.items) for d in a.dims.dim_list)
+    w.ob(f"{tag}:dims_shape_is_item_counts", tuple(a.dims.shape) == lens_, info=f"dims.shape {tuple(a.dims.shape)} items {lens_}")
     w.ob(f"{tag}:letters_distinct", len(set(a.dims.letters)) == len(a.dims.letters))
     w.ob(f"{tag}:shape_property", tuple(a.shape) == tuple(a.dims.shape) and int(a.size) == int(np.prod(a.dims.shape or (1,))) if a.dims.ndim else True)
 
@@ -141,6 +207,10 @@ def all_invariants(w, tag, E, results=()):
 def run(cfg, w):
     if cfg["h"] == "dims_edited":
         return _dims_edited(cfg, w)
+    if cfg["h"] == "same_names":
+        return _same_names(cfg, w)
+    if cfg["h"] == "may_fail":
+        return _may_fail(cfg, w)
     E = ops.Env(w)
     cat = {**ops.catalogue(), **ops.system_ops()}
     bad = {**ops.bad_calls(), **ops.bad_stock_calls()}
